@@ -653,7 +653,6 @@ pub fn multiply_uint_u64_inplace(operand1: &mut[u64], operand2: u64) {
         operand1[0] = operand1[0].wrapping_mul(operand2);
         return;
     }
-    set_zero_uint(operand1);
     let mut carry: u64 = 0;
     let operand1_index_max = std::cmp::min(operand1.len(), operand1.len());
     for operand1_index in 0..operand1_index_max {
